@@ -58,6 +58,8 @@ ACCS = {
     'nested_mut': (lambda a, i: (a[0].append(i), (a[0], a[1] + 1))[1], True),
     'nested_dict_mut': (lambda a, i: (a['seen'].append(i), a.__setitem__('n', a['n'] + 1), a)[2], True),
     # returns None for some prefixes: None is a legitimate accumulator value, not "no state yet"
+    'box_mut': (lambda a, i: (a.items.append(i), a)[1], True),
+    'tbox_mut': (lambda a, i: (a[0].items.append(i), (a[0], a[1] + 1))[1], True),
     'maybe_none': (lambda a, i: None if i % 3 == 2 else ((a if a is not None else (50, 50))[0] + i, (a if a is not None else (50, 50))[1] + 1), False),
 }
 SEEDS = {
@@ -66,6 +68,7 @@ SEEDS = {
     'list_value': (lambda: [], False), 'list_value_nonempty': (lambda: [100], False),
     'list_factory': (lambda: list, True), 'dict_factory': (lambda: dict, True),
     'arr_factory': (lambda: (lambda: array('q')), True), 'dict_value': (lambda: {}, False),
+    'box_value': (lambda: progs.Box(), False), 'tbox_value': (lambda: (progs.Box(), 0), False),
     'nested_value': (lambda: ([], 0), False), 'nested_dict_value': (lambda: {'n': 0, 'seen': []}, False),
 }
 TERMS = {
@@ -90,6 +93,8 @@ COMBOS = [
     ('arr_mut', 'arr_factory', [None]),
     ('maybe_none', 'pair00', [None]),
     ('nested_mut', 'nested_value', [None]),
+    ('box_mut', 'box_value', [None]),
+    ('tbox_mut', 'tbox_value', [None]),
     ('nested_dict_mut', 'nested_dict_value', [None]),
 ]
 NAMED = [['count', False], ['count', True], ['sum', False], ['sum', True], ['mean', False], ['mean', True], ['min', False], ['min', True],
@@ -187,14 +192,14 @@ def _build_with_inner(prog, inner_ops):
 
 
 def is_mutable(x):
-    return isinstance(x, (list, dict, array, set))
+    return isinstance(x, (list, dict, array, set, progs.Box))
 
 
 class C09(Check):
     ID = 'C09'
     LEVEL = 'exploration'
     BUDGET = {'quick': 30, 'thorough': 240}
-    RULE = ('case = (variant, context, input). Variants: 15 accumulator/seed combinations (one whose accumulator returns None for some prefixes, two whose seed VALUE nests a mutable container inside a tuple / dict) (immutable int/float/tuple folds; list building by copy and by in-place append; in-place dict and array; '
+    RULE = ('case = (variant, context, input). Variants: 15 accumulator/seed combinations (one whose accumulator returns None for some prefixes, two whose seed VALUE nests a mutable container inside a tuple / dict, two whose seed is a hashable-but-mutable user object) (immutable int/float/tuple folds; list building by copy and by in-place append; in-place dict and array; '
             'seeds given as values - incl. a non-empty mutable value - and as factories) x reduce on/off x terminators (pure and in-place) - and the 21 operators defined through scan '
             '(count, sum, mean, min, max, variance with reduce on/off, to_list, to_array, batch, distinct_until_changed, progress, dist.update). Contexts: plain observable, one multiplexed key, '
             'group_by with interleaved keys, roll (w != s and w == s: key slots reused by successive lifetimes), split, time_split with empty windows (empty keys), group_by>roll. '
@@ -203,7 +208,7 @@ class C09(Check):
                    'dist.update is compared through distogram.count / bounds / mean / bins against a reference fold with the same library']
     ANCHORS = ['rxsci/operators/scan.py', 'rxsci/operators/count.py', 'rxsci/data/to_list.py', 'rxsci/data/to_array.py', 'rxsci/math/dist/__init__.py']
     REQUIRED_TAGS = ['plain', 'mux', 'group', 'roll', 'roll_eq', 'split', 'time_split', 'generic', 'named', 'reduce', 'streaming', 'terminator',
-                     'factory', 'value-seed', 'mutable', 'empty-lifetime', 'scale'] + ['op=' + n[0] for n in NAMED]
+                     'factory', 'value-seed', 'mutable', 'empty-lifetime', 'scale', 'numpy-items'] + ['op=' + n[0] for n in NAMED]
     REQUIRED_OBSERVED = ['accumulator_calls', 'terminator_calls', 'factory_calls', 'lifetimes_checked', 'identity_checks']
 
     def generate(self, rng, tier, shard, nshards):
@@ -228,7 +233,10 @@ class C09(Check):
             if ctx == 'time_split':
                 items = sorted(rng.randint(0, 30) for _ in range(ln))
             if k % 3 == 0:
-                yield {'kind': 'named', 'op': NAMED[(k // 3) % len(NAMED)], 'ctx': ctx, 'ctx_node': node, 'items': items}
+                case = {'kind': 'named', 'op': NAMED[(k // 3) % len(NAMED)], 'ctx': ctx, 'ctx_node': node, 'items': items}
+                if case['op'][0] in ('duc', 'min', 'max', 'to_list', 'batch', 'count') and (k // 3) % 4 == 1 and ctx != 'time_split':
+                    case['conv'] = 'np'          # numpy.int64 items: comparisons return numpy.bool_, not the object True
+                yield case
             else:
                 acc, seedn, terms = COMBOS[(k // 3) % len(COMBOS)]
                 yield {'kind': 'generic', 'acc': acc, 'seed': seedn, 'term': terms[(k // 5) % len(terms)], 'reduce': (k // 2) % 2 == 0,
@@ -441,6 +449,10 @@ class C09(Check):
 
     def _eval_named(self, case, out):
         node = case['op']
+        if case.get('conv') == 'np':
+            import numpy
+            case = dict(case, items=[numpy.int64(x) for x in case['items']])
+            out.tags.append('numpy-items')
         out.tags.append('op=' + node[0])
         if len(node) > 1 and node[1] is True:
             out.tags.append('reduce')
